@@ -253,7 +253,24 @@ func c20Child(e *Env, mode string) {
 		r.DistinctAdd(int64(st["distinct_type_pairs_overlapping"].(int)))
 		r.Set("stats", st)
 		for _, b := range bad {
-			r.Violate("C20/first-use-result-differs/"+b.op+"/"+frames[b.caseIdx].t.QName, "C20/first-use-result-differs", map[string]any{"type": frames[b.caseIdx].t.QName, "op": b.op, "detail": b.detail})
+			// The expectation came from the reference codec (no library call was allowed before the
+			// concurrent first use).  A difference that the library also shows when the same case is
+			// now repeated alone is not a concurrency effect and is not C20's to report.
+			c := &frames[b.caseIdx]
+			seqSame := false
+			if b.op == "encode" {
+				w, err, p := EncodeFresh(val.Clone(c.v))
+				seqSame = err != nil || p != nil || !bytes.Equal(w, c.bytes)
+			} else {
+				d := e.C.New[c.t.QName]()
+				err, p := LibDecode(d, bytes.NewBuffer(append([]byte(nil), c.bytes...)))
+				seqSame = err != nil || p != nil || val.Equal(c.want, d) != ""
+			}
+			if seqSame {
+				r.Count("differences_from_reference_that_are_also_present_sequentially(not C20)", 1)
+				continue
+			}
+			r.Violate("C20/first-use-result-differs/"+b.op+"/"+c.t.QName, "C20/first-use-result-differs", map[string]any{"type": c.t.QName, "op": b.op, "detail": b.detail})
 		}
 	}
 }
